@@ -3,7 +3,7 @@
    ("Server name", "User identifiers", "Room IDs") with the readings fixed in DESIGN section 5.0:
 
      server_name = hostname [ ":" port ]
-     port        = 1*DIGIT with value <= 65535         (the property text; the appendix says 1*5DIGIT)
+     port        = 1*5DIGIT with value <= 65535        (the appendix, and the property text's bound)
      hostname    = IPv4address / "[" IPv6address "]" / dns-name
      IPv4address = 1*3DIGIT "." 1*3DIGIT "." 1*3DIGIT "." 1*3DIGIT
      IPv6address = the text forms of RFC 3513 section 2.2 (the appendix refers to it)
@@ -37,7 +37,7 @@ Fixpoint dec_value (acc : N) (s : bytes) : N :=
 
 Definition Numeral (s : bytes) : Prop := s <> [] /\ Forall digit s.
 
-Definition Port (p : bytes) : Prop := Numeral p /\ dec_value 0 p <= 65535.
+Definition Port (p : bytes) : Prop := Numeral p /\ (length p <= 5)%nat /\ dec_value 0 p <= 65535.
 
 Definition DnsName (h : bytes) : Prop :=
   h <> [] /\ Forall dns_char h /\ (length h <= 255)%nat.
